@@ -345,8 +345,8 @@ var (
 
 // fillBuf resets the shared backing array to a fixed pattern.
 func fillBuf(buf []byte) {
-	if ovTemplate == nil {
-		ovTemplate = make([]byte, ovBufSize)
+	if len(ovTemplate) < len(buf) {
+		ovTemplate = make([]byte, len(buf))
 		x := uint32(0x9e3779b9)
 		for i := range ovTemplate {
 			x = x*1664525 + 1013904223
@@ -354,6 +354,19 @@ func fillBuf(buf []byte) {
 		}
 	}
 	copy(buf, ovTemplate)
+}
+
+// ovBuffers returns the shared backing array and snapshot buffer, grown for
+// the few multi-megabyte layouts (counter-carry lengths).
+func ovBuffers(need int) ([]byte, []byte) {
+	size := ovBufSize
+	if need > size {
+		size = need
+	}
+	if len(ovScratch) < size {
+		ovScratch, ovSnap = make([]byte, size), make([]byte, size)
+	}
+	return ovScratch[:size], ovSnap[:size]
 }
 
 // ovRun lays the case out in one backing array, computes the result on
@@ -364,9 +377,9 @@ func ovRun(cs *ovCase) (res ovResult, err error) {
 	if op.callState != nil {
 		call = func(dst, in, _ []byte) ([]byte, error) { return op.callState(cs.pre, dst, in) }
 	}
-	buf := ovScratch
-	fillBuf(buf)
 	inN, outN := op.inLen(cs.n), op.outLen(cs.n)
+	buf, snapshot := ovBuffers(ovBase + max(inN, outN) + abs(cs.off) + cs.dl + cs.slack + 4200)
+	fillBuf(buf)
 	in := region{ovBase, inN}
 	var w, prefix, ad region
 	var dst []byte
@@ -443,7 +456,6 @@ func ovRun(cs *ovCase) (res ovResult, err error) {
 		// deterministic functions of (function, |msg|): computed once on disjoint buffers
 		ovCache[ckey] = ovCached{clone(input), clone(want)}
 	}
-	snapshot := ovSnap
 	copy(snapshot, buf)
 	res.expect, res.why = ovModel(cs, w, in, ad, prefix)
 	res.nontrivial = anyOverlap(w, in) || anyOverlap(w, ad)
@@ -533,6 +545,13 @@ func ovRun(cs *ovCase) (res ovResult, err error) {
 		}
 	}
 	return res, nil
+}
+
+func abs(x int) int {
+	if x < 0 {
+		return -x
+	}
+	return x
 }
 
 func b2i(b bool) int {
@@ -733,6 +752,50 @@ func TestC53(t *testing.T) {
 		}
 	}
 	c.Exhaustive("stream/AEAD/secretbox/precomputed-box functions x every length 0..1100 x offsets {0, 0 with dst prefix, +1, -1} (calls, all shards)", idx1b)
+	// 1c. lengths at which the 32-bit ChaCha20 block counter carries between bytes / 16-bit lanes
+	// (2^8 blocks = 16 KiB, 2^16 blocks = 4 MiB): in-place and off-by-one layouts of the stream and AEAD functions
+	idx1c := 0
+	bigLens := []int{16320 + 64, 4194240 + 128 + 512}
+	if ev.Thorough() {
+		bigLens = []int{16320, 16320 + 64, 16384 + 512, 4194240, 4194240 + 128, 4194240 + 128 + 512, 4194240 + 128 + 1024 + 64}
+	}
+	for oi := range ops {
+		op := &ops[oi]
+		if !(op.kind == ovAEADSeal || op.kind == ovAEADOpen || op.callState != nil) {
+			continue
+		}
+		for _, n := range bigLens {
+			for vi, off := range []int{0, 0, 1, -1} {
+				if !ev.Thorough() && n > 1<<20 && (vi == 1 || vi == 3 || op.name[len(op.name)-3:] != "/12") {
+					continue // quick: the 4 MiB layouts only for the 12-byte-nonce functions, offsets 0 and +1
+				}
+				idx1c++
+				if !ev.Mine(idx1c) {
+					continue
+				}
+				cs := ovCase{op: op, n: n, off: off}
+				if op.callState != nil {
+					cs.pre = []int{0, 33}[vi%2]
+				}
+				if op.kind == ovStream {
+					cs.capCls = "dst=len(src)"
+				} else if vi == 1 {
+					cs.dl, cs.capCls, cs.slack = 5, "cap=more", 9
+				} else {
+					cs.capCls = "cap=exact"
+				}
+				if op.hasAD {
+					cs.adMode, cs.adLen = "ad=disjoint", 13
+				}
+				runOn(&cs, func(what string) {
+					c.Violation(what, "")
+					t.Fatalf("VF-VIOLATION: property=C53 %s", what)
+				})
+				c.Class(fmt.Sprintf("counter-carry-length:%s", map[bool]string{true: "2^16 blocks (4 MiB)", false: "2^8 blocks (16 KiB)"}[n > 1<<20]))
+			}
+		}
+	}
+	c.Exhaustive(fmt.Sprintf("chacha20 stream + AEAD Seal/Open x counter-carry lengths %v x offsets {0, 0 with dst prefix, +1, -1} (calls, all shards)", bigLens), idx1c)
 	// 2. AD placement sweep for the AEAD: AD offset -64..+64 relative to the appended output
 	idx2 := 0
 	for oi := range ops {
